@@ -340,7 +340,7 @@ class Def:
                 lines.append("%s    %s(%s)%s,\n" % (pre, vn, ", ".join(t.rust for _, t in fs), d))
             else:
                 lines.append("%s    %s { %s }%s,\n" % (pre, vn, ", ".join("%s: %s" % (fn, t.rust) for fn, t in fs), d))
-        return "%s\n%senum %s {\n%s}\n" % (a, vis, self.name, "".join(lines))
+        return "%s\n%senum %s {\n%s}\n%s" % (a, vis, self.name, "".join(lines), self.extra)
 
     def manifest(self):
         m = {"name": self.name, "kind": self.kind, "sized": self.sized, "tag": self.tag if self.kind == "enum" else None,
@@ -471,7 +471,8 @@ def build(tier):
     us_tri = D("USTri", "struct", False, fields=[("id", U32), ("items", vec_tri_u8)], default=True)
     # macro hygiene: a user type with an inherent method named like a trait method the generated code calls on it
     us_inh = D("USInh", "struct", False, fields=[("kind", U8), ("items", vec_u8_u8)], default=True,
-               extra="impl USInh {\n    /// number of items - ordinary user API with the name of FlatBase::size\n    pub fn size(&self) -> usize { self.items.len() }\n}\n")
+               extra="impl USInh {\n    /// number of items - ordinary user API with the name of FlatBase::size\n    pub fn size(&self) -> usize { self.items.len() }\n"
+                     "    /// alignment of these records on the user's bus - ordinary user API with the name of FlatBase::ALIGN\n    pub const ALIGN: usize = 4;\n}\n")
     us_hij = D("USHij", "struct", False, fields=[("id", U32), ("payload", us_inh.t)], default=True)
     # ... and a field type with an inherent associated function named like FlatDefault::default_emplacer (a type-qualified path
     # `<Ty>::default_emplacer()` in generated code would resolve to it)
@@ -498,6 +499,10 @@ def build(tier):
                                                      ("C", "unit", [], False)], default=True, discrs=[3, 9, 4])
     ue_disci = D("UEDiscI", "enum", False, variants=[("A", "unit", [], True), ("B", "tuple", [(None, U8), (None, vec_u8_u8)], False),
                                                        ("C", "unit", [], False)], default=True, discrs=[0x10, None, None])
+    # macro hygiene for enums: inherent constants named like the trait constants the generated code reads
+    ue_inh = D("UEInh", "enum", False, variants=[("A", "unit", [], True), ("B", "tuple", [(None, U8), (None, vec_u8_u8)], False),
+                                                   ("C", "tuple", [(None, U16)], False)], default=True,
+               extra="impl UEInh {\n    /// ordinary user API with the names of FlatBase::ALIGN / MIN_SIZE\n    pub const ALIGN: usize = 8;\n    pub const MIN_SIZE: usize = 64;\n}\n")
     ue_s = D("UESz", "enum", False, variants=[("A", "unit", [], True), ("B", "tuple", [(None, U8), (None, U16)], False),
                                                 ("C", "named", [("a", U8), ("b", U16), ("c", array(U8, 4))], False)], default=True)
     ue_p = D("UEPort", "enum", False, variants=[("A", "unit", [], True), ("B", "tuple", [(None, BE_F32), (None, sp.t)], False),
